@@ -47,8 +47,8 @@ Clauses(c, e) ==
          \* (a disabled responder may read datagrams as long as it never answers a non-request)
          << <<"dgram.alive", c.enabled => e.alive>>,
             <<"dgram.answered_iff_discover",
-              e.cls \notin Loose => IF c.enabled THEN e.msgs # <<>> <=> (e.cls = "discover" /\ c.nports > 0)
-                                                ELSE e.msgs # <<>> => e.cls = "discover">> >> \o
+              e.cls \notin Loose => IF c.enabled THEN e.msgs # <<>> <=> (e.cls \in Requests /\ c.nports > 0)
+                                                ELSE e.msgs # <<>> => e.cls \in Requests>> >> \o
          AllMsgClauses(c, e.msgs, "dgram") \o
          << <<"dgram.one_answer_per_port",
               (c.enabled /\ e.msgs # <<>>) => (Len(e.msgs) = c.nports /\ Ports(e.msgs) = 1 .. c.nports)>>,
